@@ -1,7 +1,7 @@
 """C16 - bit, number and DNA conversions are exact inverses at any length (DESIGN.md section 4, C16)."""
 import numpy as np
 
-from vlib import clock, contracts, graphs as G, gens
+from vlib import alias, clock, contracts, graphs as G, gens
 from vlib.base import import_dsw
 from vlib.coding import monitored
 
@@ -118,6 +118,24 @@ def generate(ctx):
             x = {"zero": 0, "one": min(1, cap - 1), "max": cap - 1, "random": rng.randrange(cap),
                  "pow": min(cap - 1, base ** rng.randint(0, max(Lw - 1, 0)))}[which]
             yield name, dict(x=str(x), L=Lw, which=which)
+    for _ in range(ctx.pick(120, 1000)):
+        # prefixes whose value is a 'limb number' (blocks landing exactly on 10^b under x2 / x4), followed by a few more symbols
+        v = int(gens.limb_number(rng, 5))
+        bits = [int(c) for c in bin(v)[2:]] + [rng.randint(0, 1) for _ in range(rng.randint(1, 3))]
+        yield "bits", dict(bits=bits, kind="limbs", container="list")
+        d = []
+        x = v
+        while x:
+            d.append(x % 4)
+            x //= 4
+        yield "dna", dict(s="".join("ACGT"[q] for q in reversed(d)) + gens.random_dna(rng, rng.randint(1, 2)), kind="limbs")
+    if ctx.shard < ctx.pick(5, 16):
+        # widths whose values exceed 640 decimal digits (int<->str trap)
+        L = rng.randint(2150, 2400)
+        yield "bits", dict(bits=_symbols(rng, L, "random", 2), kind="beyond-640-digits", container="list")
+        yield "dna", dict(s="".join("ACGT"[x] for x in _symbols(rng, L // 2, "random", 4)), kind="beyond-640-digits")
+        yield "number_dna", dict(x=str(rng.randrange(4 ** (L // 2 - 1), 4 ** (L // 2))), L=L // 2, which="beyond-640-digits")
+        yield "number_bits", dict(x=str(rng.randrange(2 ** (L - 1), 2 ** L)), L=L, which="beyond-640-digits")
     for _ in range(ctx.pick(5, 30)):
         yield "via_library", dict(k=rng.choice([2, 3]), bits=[rng.randint(0, 1) for _ in range(rng.choice([8, 33, 64, 120]))])
 
@@ -145,6 +163,14 @@ def check_bits(ctx, case):
         back = monitored(dsw.number_to_bit, B, a.value, L)
         if not _bad(ctx, back, "number_to_bit(str, %d)" % L) and [int(x) for x in back.value] != [int(b) for b in bits]:
             ctx.fail("bit-round-trip", "number_to_bit(bit_to_number(b), %d) != b for b = %s..." % (L, bits[:48]))
+        elif back.kind == "ok" and L <= 300 and ctx.rng.random() < 0.3:
+            # G1: the caller flips bits in the list it was handed (error injection); the same conversion must not change
+            checked, same, second = alias.repeat_after_scramble(dsw.number_to_bit, (a.value, L), {}, back.value)
+            if checked:
+                ctx.cls("conversion repeated after its result was scrambled")
+                if not same:
+                    ctx.fail("answer-changes-after-result-was-edited", "number_to_bit(%s..., %d) called again after the caller edited the first result in place returns %r" % (
+                        a.value[:30], L, second if not isinstance(second, list) else second[:24]))
     if case["container"] == "list":
         b = monitored(dsw.bit_to_number, B, list(bits), is_string=False)
         if not _bad(ctx, b, "bit_to_number(%d bits, is_string=False)" % L):
@@ -263,6 +289,10 @@ def floors(agg, tier):
     if agg["monitors"].get("contract-evaluations-inside-repo-tests", 0) < (10 if tier == "quick" else 10):
         out.append("repository tests ran %d contract evaluations" % agg["monitors"].get("contract-evaluations-inside-repo-tests", 0))
     c, m = agg["classes"], agg["monitors"]
+    for name, need in (("conversion repeated after its result was scrambled", 200), ("bits|limbs", 500), ("dna|limbs", 500),
+                       ("bits|beyond-640-digits", 3), ("dna|beyond-640-digits", 3)):
+        if c.get(name, 0) < need:
+            out.append("%s observed %d < %d" % (name, c.get(name, 0), need))
     for fn in ("bit_to_number", "number_to_bit", "dna_to_number", "number_to_dna"):
         key = [x for x in m if x.startswith("contract-evaluations:%s." % fn)]
         if not key or m[key[0]] < 5000:
